@@ -146,6 +146,53 @@ CHECKS = {
         "int() leniency in file names is not judged.",
    technique="TLA+ declarative identity/promise spec enumerated by TLC; every state executed against read_files/read_namespace",
    design="4 C15"),
+ "C04": dict(
+   text="TLC evaluates on ExprOps.tla / Expr.tla every expression of three enumerations (operator-pair precedence grid, "
+        "operator x operand-kind grid, type-directed trees) with exact rational arithmetic, set semantics and the table of "
+        "undefined combinations, and derives minimal-parenthesis token sequences from the Specification's precedence / "
+        "associativity levels. Every state is rendered three ways (random literal forms and blanks) into @print and, for "
+        "small integers, a constant initialiser, array capacity, @assert and @extent; values and rejections are compared.",
+   note="Magnitudes are guarded at 30000 (TLC has 32-bit integers); real exponents, negative bitwise operands, string "
+        "concatenation / NFC and wide integers are outside TLC and covered by a fixed list in the harness; min / max of "
+        "singleton sets of unordered kinds are not judged.",
+   technique="TLA+ evaluator and precedence table checked/enumerated by TLC; every state rendered and evaluated by pydsdl",
+   design="4 C04"),
+ "C05": dict(
+   text="TLC enumerates on Rules.tla every definition within two (three, sampled) deviations of a valid skeleton over eleven "
+        "dimensions with Valid = conjunction of the thirteen named rule predicates stated on semantic attributes (widths, "
+        "capacities, ranges, counts); Statements.tla covers directive placement exhaustively. Every abstract definition is "
+        "materialised and read; accepted iff Valid, every rejection an InvalidDefinitionError.",
+   note="The legality of name tokens is a table (58 tokens) transcribed from the Specification; relative extents use the "
+        "longest representation of the sealed variant as read from the implementation (C02 decides extents).",
+   technique="TLA+ rule predicates enumerated by TLC; every definition materialised and read, accept/reject compared",
+   design="4 C05"),
+ "C12": dict(
+   text="TLC enumerates on Constants.tla every constant type (all integer widths 1..64, both signednesses and cast modes, "
+        "three float formats, bool) with ~100 symbolic values each around both ends of every range (s*2^e + o + 1/3, largest "
+        "finite float +- 1/3, strings, booleans, sets); the exponent arithmetic is validated against plain integers up to 24 "
+        "bits. Each pair is rendered with an exact expression and read; accepted iff Compliant and the stored value exact.",
+   note="Trusts C04 for the exactness of the boundary expressions.",
+   technique="TLA+ compliance predicate on symbolic boundary values enumerated by TLC; every pair read by pydsdl",
+   design="4 C12"),
+ "C13": dict(
+   text="TLC checks on Funnel.tla that what escapes the layered exception handlers is an InvalidDefinitionError with a path "
+        "exactly for raise sites of the InvalidDefinition family, and enumerates every single token mutation (and adjacent "
+        "double mutations) of three seed definitions over a 110-entry vocabulary. Every mutated text, 45 corner texts, seeded "
+        "character noise, 31 file-name shapes and 6 duplicate file sets are read: model or InvalidDefinitionError with path.",
+   note="Known finding F10 (4300-digit rendering limit) is matched by its cause. Unbounded power towers are excluded "
+        "(bounded magnitude); all Unicode strings are sampled.",
+   technique="TLA+ propagation model checked by TLC; TLC-enumerated token mutations and harness noise read by pydsdl",
+   design="4 C13"),
+ "C18": dict(
+   text="TLC checks on Values.tla the equality laws by key (class, normalised string form, approximate bit length set) over "
+        "every ordered pair of 100 type descriptions with the verdict must-equal / must-differ / either, and that no "
+        "sequence of accessor + list mutation steps changes an object's projection. Both objects of each pair are built "
+        "independently and ==, !=, hash, Field and BitLengthSet equality compared; objects are re-compared with fresh ones "
+        "after use; pickling round-trips; accessor histories are replayed.",
+   note="byte / utf8 and service types are outside the enumerated universe; expression values and bit length sets are "
+        "compared over fixed / random lists by the harness.",
+   technique="TLA+ equality-by-key and aliasing machine checked by TLC; every pair / history replayed on real objects",
+   design="4 C18"),
 }
 
 NOT_YET = "check not built yet in this round (see DESIGN.md section 9 build order)"
